@@ -1429,6 +1429,18 @@ func main() {
 		}
 	}
 
+	// ---- part 2n: interleavings of three follower reads, replayed on Model/RolesN.v (sched3.go); a generator of its own
+	// so that the other parts see the random stream they always saw
+	n3 := 40
+	if args.Tier == "thorough" {
+		n3 = 500
+	} else if args.Tier == "search" {
+		n3 = 150
+	}
+	if unrealised < 3 {
+		s.runThreeReadSchedules(w, lib.NewRand(args.Seed+181803), n3)
+	}
+
 	// ---- part 2b: a failed fetch of one read must not disturb another read (coordinator scenario)
 	for _, mode := range []string{"unreachable", "400", "garbage", "ok"} {
 		cs, fail := s.runOverlap(mode)
@@ -1501,7 +1513,7 @@ func main() {
 	// validity (c18_validb) is a conjunct of the check the shards evaluate: an invalid case is a mismatch, so a green run has none
 	w.Stats.Extra["invalid_cases"] = 0
 	w.Stats.Extra["invalid_cases_how"] = "c18_checkv = c18_validb && c18_check: counted as mismatches"
-	if err := w.Finish("part 1: every request kind x role x proxy x leader reachability (exhaustive); part 2: enabled interleavings of two follower List requests with 0-3 leader advances, realised by gating the /status handler, SetCurrentRevision and List (the two witnesses first); part 3: /status of server.NewServer in both roles, the compaction loop's first firing in both roles; trivial = a schedule with fewer than 8 labels"); err != nil {
+	if err := w.Finish("part 1: every request kind x role x proxy x leader reachability (exhaustive); part 2: enabled interleavings of two follower List requests with 0-3 leader advances, realised by gating the /status handler, SetCurrentRevision and List (the two witnesses first); part 2n: interleavings of three follower List requests with 0-4 leader advances on the same gates (two scripted witnesses first; at most one read waiting for the mutex and one joiner per flight), replayed on the n-reader model; part 3: /status of server.NewServer in both roles, the compaction loop's first firing in both roles; trivial = a two-read schedule with fewer than 8 labels, a three-read schedule with fewer than 12"); err != nil {
 		fmt.Fprintln(os.Stderr, err)
 		os.Exit(2)
 	}
